@@ -8,6 +8,7 @@ import AM.Model.Health
 import AM.Model.Conc
 import AM.Spec.AuditProc
 import AM.Model.Workers
+import AM.Model.Handoff
 /-! `amdriver <mode> [property]`: runs the executable model on cases read from stdin, one per line,
 prints the model's canonical observation, the verdict of the property's executable `Spec` on it
 and — when the case carries the implementation's observation (`obs=`) — the verdict on that. -/
@@ -381,6 +382,83 @@ def daemonLine (f : List String) : String :=
       s!"{id} {obs} spec={verdict (specDaemon obs)} ispec={isp} dom=1 nt=1"
   | _ => "!badline"
 
+/-! ### C10: the hand-off composition -/
+
+structure HSess where
+  pid : Int
+  ses : String
+  k   : Nat        -- commands between the LOGIN and the CRED_DISP record
+  base : Nat       -- first sequence number of the session's records
+
+def parseSess (x : String) : Option HSess :=
+  match x.splitOn ":" with
+  | [pid, ses, k, base] => do
+    let p ← pid.toInt?
+    let kk ← k.toNat?
+    let b ← base.toNat?
+    pure ⟨p, ses, kk, b⟩
+  | _ => none
+
+def hoLogin (s : HSess) : Tr.Login := Spec.AP.mkLogin s.pid (strOf "unknown") true (toString s.pid)
+
+def hoEvents (s : HSess) : List (Tr.AEvent × Tr.Time) :=
+  let mk := fun (i : Nat) (typ : Tr.EvType) =>
+    (({ ts := 1600000000 + (s.base + i : Nat), ses := strOf s.ses, typ := typ, pidTok := strOf (toString s.pid),
+        result := strOf "success", action := [], how := [], object := [], args := [] } : Tr.AEvent), ((s.base + i : Nat) : Int))
+  [mk 0 .login] ++ (List.range s.k).map (fun i => mk (i + 1) .other) ++ [mk (s.k + 1) .credDisp]
+
+def hoItem : HO.Item → String
+  | .login l => s!"L:{l.pid}"
+  | .action em => s!"A:{String.ofList em.ev.ses}:{em.ev.ts}"
+
+/-- C10 on the sequence of lines of the output file -/
+def specHandoff (ss : List HSess) (torn : String) (raw : List String) : Option String :=
+  let expected := ss.flatMap fun s => s!"L:{s.pid}" :: (hoEvents s).map fun e => s!"A:{s.ses}:{e.1.ts}"
+  if torn != "0" then some "torn-or-interleaved-line"
+  else if raw.eraseDups.length ≠ raw.length then some "event-written-twice"
+  else if !(raw.all fun x => expected.contains x) then some "unexpected-event"
+  else
+    -- causal order: a UserAction of session s comes after the UserLogin of s's login
+    let idx := (List.range raw.length).zip raw
+    let bad := ss.any fun s =>
+      let li := idx.find? fun p => p.2 == s!"L:{s.pid}"
+      idx.any fun p => p.2.startsWith s!"A:{s.ses}:" && (match li with | some q => p.1 < q.1 | none => true)
+    if bad then some "action-before-its-login"
+    else
+      -- per session: in processing order
+      let unordered := ss.any fun s =>
+        let mine := raw.filter fun x => x.startsWith s!"A:{s.ses}:"
+        let want := (hoEvents s).map fun e => s!"A:{s.ses}:{e.1.ts}"
+        mine != want.filter fun x => mine.contains x
+      if unordered then some "session-events-out-of-order"
+      else if !(expected.all fun x => raw.contains x) then some "event-missing"
+      else none
+
+/-- `<id> <mode> <sess,sess,…> <delays> [obs=T:n;sorted items] [raw=T:n|items in file order]` -/
+def handoffLine (f : List String) : String :=
+  match f with
+  | id :: _mode :: sess :: _delays :: rest =>
+    match (sess.splitOn ",").mapM parseSess with
+    | none => s!"{id} !badcase"
+    | some ss =>
+      let st0 : HO.St := { sshdTodo := ss.map hoLogin, auditTodo := ss.flatMap hoEvents }
+      let sched := (ss.flatMap fun _ => [HO.Act.sshdWrite, HO.Act.handoff]) ++ (ss.flatMap hoEvents).map fun _ => HO.Act.audit
+      let fin := HO.run st0 sched
+      let items := fin.out.map hoItem
+      let sorted := (items.toArray.qsort (· < ·)).toList
+      let obs := String.intercalate ";" ("T:0" :: sorted)
+      let sp := specHandoff ss "0" items
+      let isp := match kv rest "raw" with
+        | none => "-"
+        | some x =>
+          match x.splitOn "|" with
+          | [t, its] =>
+            let raw := if its == "" then [] else its.splitOn ";"
+            verdict (specHandoff ss ((t.drop 2).toString) raw)
+          | _ => "FAIL:unparsable-observation"
+      s!"{id} {obs} spec={verdict sp} ispec={isp} dom=1 nt={if ss.length ≥ 2 then 1 else 0}"
+  | _ => "!badline"
+
 partial def loop (h : IO.FS.Stream) (out : IO.FS.Stream) (f : List String → String) : IO Unit := do
   let line ← h.getLine
   if line.isEmpty then return ()
@@ -398,6 +476,7 @@ def main (args : List String) : IO UInt32 := do
   | ["health"] => loop stdin stdout healthLine; return 0
   | ["dir"] => loop stdin stdout dirLine; return 0
   | ["pipe"] => loop stdin stdout pipeLine; return 0
+  | ["handoff"] => loop stdin stdout handoffLine; return 0
   | ["workers"] => loop stdin stdout workersLine; return 0
   | ["daemon"] => loop stdin stdout daemonLine; return 0
   | ["auditproc"] => loop stdin stdout apLine; return 0
